@@ -6,6 +6,7 @@ Core-only: imports Model, Spec and Driver glue, never a proof module.
 import Jsonapi.Driver.Schema
 import Jsonapi.Driver.Filter
 import Jsonapi.Driver.Range
+import Jsonapi.Driver.Struct
 open Jsonapi Jsonapi.Driver
 
 structure DState where
@@ -21,6 +22,9 @@ def stepLine (st : DState) (line : String) : DState × String :=
     (st, m ++ "\t" ++ sp ++ "\t" ++ (if dom then "1" else "0"))
   | [.list (.atom "range" :: args)] =>
     let (m, sp, dom) := stepRange args
+    (st, m ++ "\t" ++ sp ++ "\t" ++ (if dom then "1" else "0"))
+  | [.list (.atom "struct" :: args)] =>
+    let (m, sp, dom) := stepStruct args
     (st, m ++ "\t" ++ sp ++ "\t" ++ (if dom then "1" else "0"))
   | _ => (st, "bad-line\t-\t0")
 
